@@ -88,7 +88,9 @@ Lemma fromtar_trunc : forall fuel rf rt, Sync rf rt ->
   (fst (Ffromtar fuel rt) = fst (Ffromtar fuel rf)
    /\ (forall h od no, fst (Ffromtar fuel rf) = FOk h od no -> Sync (snd (Ffromtar fuel rf)) (snd (Ffromtar fuel rt))))
   \/ (exists e, fst (Ffromtar fuel rt) = FHdr e /\ short_hdr e /\ lenN (und rt) < 512)
-  \/ fst (Ffromtar fuel rt) = FSub.
+  \/ fst (Ffromtar fuel rt) = FSub
+  \/ fst (Ffromtar fuel rt) = FFuel
+  \/ (fst (Ffromtar fuel rt) = FHdr HInvalid /\ und (snd (Ffromtar fuel rt)) = []).
 Proof.
   induction fuel as [|f IH]; intros rf rt H; [left; split; [reflexivity|intros; discriminate]|].
   cbn [fromtar]. destruct (read_trunc 512 rf rt H) as [[Hb Hs]|(Hlt & Hb & He)].
@@ -101,48 +103,82 @@ Proof.
   - destruct (read_trunc (block (h_size h)) rf1 rt1 Hs) as [[Hb2 Hs2]|(_ & _ & He2)].
     + destruct (Fread (block (h_size h)) rf1) as [nf rf2], (Fread (block (h_size h)) rt1) as [nt rt2].
       cbn [fst snd] in *. subst nt.
-      destruct (IH rf2 rt2 Hs2) as [[E HS]|[(e & E & Hsh & _)|E]].
+      destruct (IH rf2 rt2 Hs2) as [[E HS]|[(e & E & Hsh & _)|[E|[E|[E _]]]]].
       * left. destruct (Ffromtar f rf2) as [xf rf3], (Ffromtar f rt2) as [xt rt3]. cbn [fst snd] in *. subst xt.
         destruct xf as [e| | |h' od no|]; try destruct e; cbn [fst snd]; (split; [reflexivity|]); intros; try discriminate.
         eapply HS. reflexivity.
-      * right. right. destruct (Ffromtar f rt2) as [xt rt3]. cbn [fst] in E. subst xt.
+      * right. right. left. destruct (Ffromtar f rt2) as [xt rt3]. cbn [fst] in E. subst xt.
         destruct Hsh as [-> | ->]; reflexivity.
-      * right. right. destruct (Ffromtar f rt2) as [xt rt3]. cbn [fst] in E. subst xt. reflexivity.
+      * right. right. left. destruct (Ffromtar f rt2) as [xt rt3]. cbn [fst] in E. subst xt. reflexivity.
+      * right. right. right. left. destruct (Ffromtar f rt2) as [xt rt3]. cbn [fst] in E. subst xt. reflexivity.
+      * right. right. left. destruct (Ffromtar f rt2) as [xt rt3]. cbn [fst] in E. subst xt. reflexivity.
     + (* the long-name data is cut: the cut stream is at EOF *)
       destruct (Fread (block (h_size h)) rf1) as [nf rf2], (Fread (block (h_size h)) rt1) as [nt rt2].
       cbn [snd] in He2. destruct f as [|f'].
       * left. cbn [fromtar fst snd]. split; [reflexivity|intros; discriminate].
-      * right. right. pose proof (fromtar_eof_S f' rt2 He2) as E.
+      * right. right. left. pose proof (fromtar_eof_S f' rt2 He2) as E.
         destruct (Ffromtar (S f') rt2) as [xt rt3]. cbn [fst] in E. subst xt. reflexivity.
-  - destruct (is_pax_type (h_type h)); [left; split; [reflexivity|intros; discriminate]|].
-    left. destruct Hs as [Hp Hw]. cbn [fst snd]. rewrite Hp. split; [reflexivity|]. intros. split; assumption.
+  - destruct (is_pax_type (h_type h)).
+    + destruct (h_type h =? 103); [left; split; [reflexivity|intros; discriminate]|].
+      destruct (read_trunc (block (h_size h)) rf1 rt1 Hs) as [[Hb2 Hs2]|(_ & _ & He2)].
+      * destruct (Fread (block (h_size h)) rf1) as [nf rf2], (Fread (block (h_size h)) rt1) as [nt rt2].
+        cbn [fst snd] in *. subst nt.
+        destruct (parse_pax (S (length nf)) nf 0 []) as [recs|]; [|left; split; [reflexivity|intros; discriminate]].
+        destruct (IH rf2 rt2 Hs2) as [[E HS]|[(e & E & Hsh & _)|[E|[E|[E _]]]]].
+        -- left. destruct (Ffromtar f rf2) as [xf rf3], (Ffromtar f rt2) as [xt rt3]. cbn [fst snd] in *. subst xt.
+           destruct xf as [e| | |h' od no|]; try destruct e; try destruct (pax_sparse recs); cbn [fst snd];
+             (split; [reflexivity|]); intros; try discriminate. eapply HS. reflexivity.
+        -- right. right. left. destruct (Ffromtar f rt2) as [xt rt3]. cbn [fst] in E. subst xt.
+           destruct Hsh as [-> | ->]; reflexivity.
+        -- right. right. left. destruct (Ffromtar f rt2) as [xt rt3]. cbn [fst] in E. subst xt. reflexivity.
+        -- right. right. right. left. destruct (Ffromtar f rt2) as [xt rt3]. cbn [fst] in E. subst xt. reflexivity.
+        -- right. right. left. destruct (Ffromtar f rt2) as [xt rt3]. cbn [fst] in E. subst xt. reflexivity.
+      * (* the pax payload is cut: the cut stream is at EOF *)
+        destruct (Fread (block (h_size h)) rf1) as [nf rf2], (Fread (block (h_size h)) rt1) as [nt rt2].
+        cbn [snd] in He2.
+        destruct (parse_pax (S (length nt)) nt 0 []) as [recs|].
+        -- destruct f as [|f'].
+           ++ right. right. right. left. reflexivity.
+           ++ right. right. left. pose proof (fromtar_eof_S f' rt2 He2) as E.
+              destruct (Ffromtar (S f') rt2) as [xt rt3]. cbn [fst] in E. subst xt. reflexivity.
+        -- right. right. right. right. split; [reflexivity|exact He2].
+    + left. destruct Hs as [Hp Hw]. cbn [fst snd]. rewrite Hp. split; [reflexivity|]. intros. split; assumption.
 Qed.
 
 (* AioTarStream.next on the cut stream: an error, or the same answer, or — the leniency — a normal "end of
    archive" because the 512-byte header read at a non-zero offset came back short *)
-Definition lenient_end (off : N) (rt : rst bytes) : Prop :=
-  off <> 0 /\ exists b, Fadvance off rt = Some b /\ lenN (und b) < 512.
+Definition lenient_end (fuel : nat) (off : N) (rt : rst bytes) : Prop :=
+  off <> 0 /\ exists b, Fadvance off rt = Some b
+              /\ (lenN (und b) < 512
+                  \/ (fst (Ffromtar fuel b) = FHdr HInvalid /\ und (snd (Ffromtar fuel b)) = [])).
 
 Lemma next_trunc : forall fuel off rf rt, Sync rf rt ->
   fst (Fnext fuel off rt) = NxErr
   \/ (fst (Fnext fuel off rt) = fst (Fnext fuel off rf)
       /\ (forall h od no, fst (Fnext fuel off rf) = NxMem h od no -> Sync (snd (Fnext fuel off rf)) (snd (Fnext fuel off rt))))
-  \/ (fst (Fnext fuel off rt) = NxNone /\ lenient_end off rt).
+  \/ (fst (Fnext fuel off rt) = NxNone /\ lenient_end fuel off rt)
+  \/ fst (Fnext fuel off rt) = NxFuel.
 Proof.
   intros fuel off rf rt H. unfold next. pose proof H as [Hp _]. rewrite Hp.
   destruct (negb (off =? pos rt) && (off =? 0)); [right; left; split; [reflexivity|intros; discriminate]|].
   destruct (advance_trunc off rf rt H) as [E|(a & b & Ea & Eb & Hs)]; [rewrite E; now left|].
   rewrite Ea, Eb.
-  destruct (fromtar_trunc fuel a b Hs) as [[E HS]|[(e & E & Hsh & Hlen)|E]].
+  destruct (fromtar_trunc fuel a b Hs) as [[E HS]|[(e & E & Hsh & Hlen)|[E|[E|[E He]]]]].
   - right. left. destruct (Ffromtar fuel a) as [xf a'], (Ffromtar fuel b) as [xt b']. cbn [fst snd] in *. subst xt.
     destruct xf as [e| | |h od no|]; try destruct e; try destruct (off =? 0); cbn [fst snd];
       (split; [reflexivity|]); intros; try discriminate; eapply HS; reflexivity.
   - destruct (Ffromtar fuel b) as [xt b']. cbn [fst] in E. subst xt.
     destruct (N.eqb_spec off 0) as [E0|E0].
     + left. destruct Hsh as [-> | ->]; reflexivity.
-    + right. right. split; [destruct Hsh as [-> | ->]; reflexivity|].
-      split; [exact E0|]. exists b. split; [exact Eb|exact Hlen].
+    + right. right. left. split; [destruct Hsh as [-> | ->]; reflexivity|].
+      split; [exact E0|]. exists b. split; [exact Eb|left; exact Hlen].
   - left. destruct (Ffromtar fuel b) as [xt b']. cbn [fst] in E. subst xt. reflexivity.
+  - right. right. right. destruct (Ffromtar fuel b) as [xt b']. cbn [fst] in E. subst xt. reflexivity.
+  - destruct (N.eqb_spec off 0) as [E0|E0].
+    + left. destruct (Ffromtar fuel b) as [xt b']. cbn [fst] in E. subst xt. reflexivity.
+    + right. right. left. split.
+      * destruct (Ffromtar fuel b) as [xt b']. cbn [fst] in E. subst xt. reflexivity.
+      * split; [exact E0|]. exists b. split; [exact Eb|right; split; assumption].
 Qed.
 
 Lemma fsr_trunc : forall fuel bufsz od size p rf rt acc, Sync rf rt ->
@@ -182,18 +218,19 @@ Qed.
    either stops exactly like the full run or stops with a normal return *)
 Definition cut_ok (full cut : outcome * list (hdr * bytes)) : Prop :=
   fst cut = ReadError
+  \/ fst cut = Hang     (* the model's fuel ran out (NxFuel); never the case with the fuel members_flat gives *)
   \/ ((exists rest, snd full = snd cut ++ rest) /\ (fst cut = fst full \/ fst cut = Done)).
 
 Lemma members_trunc : forall fuel off rf rt acc, Sync rf rt ->
   cut_ok (Fmembers fuel off rf acc) (Fmembers fuel off rt acc).
 Proof.
   induction fuel as [|f IH]; intros off rf rt acc H.
-  { right. split; [exists []; cbn; now rewrite app_nil_r|now left]. }
+  { right. left. reflexivity. }
   unfold cut_ok. cbn [members].
-  destruct (next_trunc (S f) off rf rt H) as [E|[[E HS]|[E _]]].
+  destruct (next_trunc (S f) off rf rt H) as [E|[[E HS]|[[E _]|E]]].
   - left. destruct (Fnext (S f) off rt) as [xt rt1]. cbn [fst] in E. subst xt. reflexivity.
   - destruct (Fnext (S f) off rf) as [xf rf1], (Fnext (S f) off rt) as [xt rt1]. cbn [fst snd] in *. subst xt.
-    destruct xf as [| | |h od no|]; try (right; split; [exists []; cbn; now rewrite app_nil_r|now left]).
+    destruct xf as [| | |h od no|]; try (right; right; split; [exists []; cbn; now rewrite app_nil_r|now left]).
     specialize (HS h od no eq_refl).
     destruct (has_data (h_type h)); [|now apply IH].
     destruct (fsr_trunc (S f) None od (h_size h) 0 rf1 rt1 [] HS) as [E|[E HS2]].
@@ -201,10 +238,11 @@ Proof.
     + destruct (Ffsr (S f) None od (h_size h) 0 rf1 []) as [[of df] rf2].
       destruct (Ffsr (S f) None od (h_size h) 0 rt1 []) as [[ot dt] rt2]. cbn [fst snd] in *.
       injection E as -> ->.
-      destruct of; try (right; split; [exists []; cbn; now rewrite app_nil_r|now left]). now apply IH.
-  - right. destruct (Fnext (S f) off rt) as [xt rt1]. cbn [fst] in E. subst xt. cbn [fst snd].
+      destruct of; try (right; right; split; [exists []; cbn; now rewrite app_nil_r|now left]). now apply IH.
+  - right. right. destruct (Fnext (S f) off rt) as [xt rt1]. cbn [fst] in E. subst xt. cbn [fst snd].
     pose proof (members_acc (S f) off rf acc) as [l El]. cbn [members] in El.
     split; [exists l; exact El|now right].
+  - right. left. destruct (Fnext (S f) off rt) as [xt rt1]. cbn [fst] in E. subst xt. reflexivity.
 Qed.
 
 (* ---- the statements used by Props/C23.v ---- *)
@@ -217,10 +255,11 @@ Qed.
    member only through the header-level leniency *)
 Theorem truncation_boundary : forall fuel off rf rt h od no,
   Sync rf rt -> fst (Fnext fuel off rf) = NxMem h od no -> fst (Fnext fuel off rt) = NxNone ->
-  lenient_end off rt.
+  lenient_end fuel off rt.
 Proof.
-  intros fuel off rf rt h od no H Ef Et. destruct (next_trunc fuel off rf rt H) as [E|[[E _]|[_ L]]].
+  intros fuel off rf rt h od no H Ef Et. destruct (next_trunc fuel off rf rt H) as [E|[[E _]|[[_ L]|E]]].
   - rewrite Et in E. discriminate.
   - rewrite Et, Ef in E. discriminate.
   - exact L.
+  - rewrite Et in E. discriminate.
 Qed.
